@@ -153,9 +153,6 @@ def conserved(src, out):
     directly before '{' or '[' (C08)."""
     n, m = len(src), len(out)
     # iterative DP over (i, j): reachable set, processed by increasing i
-    import sys
-    if n > 3000:
-        sys.setrecursionlimit(max(sys.getrecursionlimit(), 4 * n + 1000))
     # blank_ok[i]: src[i] is blank and the maximal blank run containing i is followed by { or [
     blank_ok = [False] * n
     i = n - 1
